@@ -270,7 +270,8 @@ def build(seed, tier, g, place, driver, exit_code=None, sweep=False, capture=Fal
         setup_stdin = g.choice(['SETUP-STDIN', 'line1\nline2\n'])
     cd = g.random() < 0.3 and pkind != 'act_null'
     # (a -transformed-by line after a -stdin line would bind to the stdin's TEXT-SOURCE: only without stdin here)
-    transform = g.random() < 0.3 and pkind in ('file_stdout_from', 'stdout_from') and len(prog['lines']) == 1
+    transform = g.random() < 0.3 and pkind in ('file_stdout_from', 'stdout_from', 'act_command_line') and \
+        len(prog['lines']) == 1
     plan = {'format': 1, 'property': PROPERTY, 'engine': 'c10', 'run_seed': seed, 'tier': tier,
             'knobs': {'mem_buff_size': g.choice([1, 5, 8192])}, 'entry': 'cli', 'kind': 'denotation',
             'place': pkind, 'phase': ph, 'defs': defs, 'prog': prog, 'procs': procs, 'setup_stdin': setup_stdin,
@@ -318,10 +319,10 @@ def render(plan):
     elif pk == 'act_command_line':
         if plan['cd']:
             setup.append(cd_line)
-        act = indented
+        act = indented + tr
         a = lines['assert']
         a.append('exit-code == %d' % T['exit'])
-        a.append('stdout ' + _equals(T['stdout']))
+        a.append('stdout ' + _equals(exp_out))
         a.append('stderr ' + _equals(T['stderr']))
     elif pk == 'act_file_interpreter':
         lines['conf'].append('actor = file ' + indented[0])
